@@ -80,7 +80,7 @@ def axes_case():
   return st.fixed_dictionaries({
       'd': st.integers(1, 3), 'n': st.integers(1, 4),
       'param_axis': st.sampled_from([0, 1, None]),
-      'w_axis': st.sampled_from(['same', 0, 1]),
+      'w_axis': st.sampled_from(['same', 0, 1, 2, 2]),
       'stat_axis': st.sampled_from([0, 1, None]),
       'count_axis': st.sampled_from([0, None]),
       'in_axis': st.sampled_from([0, 1]), 'out_axis': st.sampled_from([0, 1]),
@@ -167,6 +167,7 @@ def scan_case():
   return st.fixed_dictionaries({
       'd': st.integers(1, 3), 'n': st.integers(1, 4),
       'param_axis': st.sampled_from([0, 1, None]),
+      'w_axis': st.sampled_from(['same', 'same', 0, 1, 2, 2]),
       'stat_role': st.sampled_from([0, 'carry']),
       'count_role': st.sampled_from([0, 'carry']),
       'reverse': st.booleans(),
@@ -179,7 +180,8 @@ def scan_case():
 
 @clause('scan_vs_loop', strategy=scan_case, quick=200, thorough=8000,
         quick_shards=16, thorough_shards=16, shrink=False,
-        rule='StateAxes assignments (Param -> axis 0/1/None i.e. broadcast, '
+        rule='StateAxes assignments (Param -> axis 0/1/None i.e. broadcast, the '
+        'rank-2 kernel via PathContains also on axis 2, '
         'BatchStat / Count -> axis 0 or Carry) x length 1-4 x reverse x in/'
         'out axes: nnx.scan final carry, stacked outputs and module state '
         'equal the Python loop with Carry state threaded, axis state sliced '
@@ -187,7 +189,9 @@ def scan_case():
         'written and n>=2, or reverse')
 def scan_vs_loop(case, ctx):
   d, n = case['d'], case['n']
-  axes = {'w': case['param_axis'], 'b': case['param_axis'],
+  wa = case['param_axis'] if case['w_axis'] == 'same' or case[
+      'param_axis'] is None else case['w_axis']
+  axes = {'w': wa, 'b': case['param_axis'],
           'mean': case['stat_role'], 'count': case['count_role']}
   write = list(case['write'])
   rng = np.random.default_rng(case['seed'])
@@ -219,9 +223,13 @@ def scan_vs_loop(case, ctx):
       carry_vals[k] = np.asarray(getattr(mi, k).value)
     for k in out_slices:
       out_slices[k][i] = np.asarray(getattr(mi, k).value)
-  sa = nnx.StateAxes({nnx.Param: axes['w'],
-                      nnx.BatchStat: nnx.Carry if axes['mean'] == 'carry' else 0,
-                      Count: nnx.Carry if axes['count'] == 'carry' else 0})
+  sa_items = []
+  if axes['w'] != axes['b']:
+    sa_items.append((filterlib.PathContains('w'), axes['w']))
+  sa_items += [(nnx.Param, axes['b']),
+               (nnx.BatchStat, nnx.Carry if axes['mean'] == 'carry' else 0),
+               (Count, nnx.Carry if axes['count'] == 'carry' else 0)]
+  sa = nnx.StateAxes(dict(sa_items))
   def step(mm, cc, x):
     y = body(mm, x + cc, write)
     return cc * 0.5 + jnp.mean(y), y
